@@ -436,6 +436,36 @@ func init() {
 	reg("syscall.Recvfrom", route("vSysRecvfrom"))
 	reg("syscall.Close", route("vSysClose"))
 
+	// ---- sort.Slice (the real one swaps through reflection): stable merge sort calling less ----
+	sortSlice := func(r *Run, caller *frame, _ *ssa.Function, args []Value) Value {
+		ifc, ok := args[0].(Iface)
+		if !ok {
+			panic(unsupported("sort.Slice on unmodelled value"))
+		}
+		sl, ok := ifc.V.(Slice)
+		if !ok || sl.Len < 2 {
+			return nil
+		}
+		// less(i, j) refers to current positions, so sort a permutation with a snapshot in place:
+		// place the elements into a scratch order and compare by writing candidates to slots 0/1 is
+		// not possible; instead use insertion by adjacent swaps (bubble-insertion), calling less(j-1, j).
+		n := sl.Len
+		for i := 1; i < n; i++ {
+			for j := i; j > 0; j-- {
+				res := r.callValue(args[1], []Value{smt.Const(64, uint64(j)), smt.Const(64, uint64(j-1))}, caller)
+				if !r.branch(r.asInt(res)) {
+					break
+				}
+				a, b := r.sliceGet(sl, j), r.sliceGet(sl, j-1)
+				r.sliceSet(sl, j, b)
+				r.sliceSet(sl, j-1, a)
+			}
+		}
+		return nil
+	}
+	reg("sort.Slice", sortSlice)
+	reg("sort.SliceStable", sortSlice)
+
 	// ---- os ----
 	reg("os.NewFile", func(r *Run, _ *frame, _ *ssa.Function, args []Value) Value { return Poison{"os.NewFile"} })
 	reg("syscall.Getrlimit", func(r *Run, _ *frame, _ *ssa.Function, args []Value) Value {
